@@ -37,7 +37,9 @@ def build(repo=None):
 
     def compile_one(std):
         exe = os.path.join(outdir, "own_driver_" + std)
-        cmd = ["g++", "-std=c++" + std, "-g", "-O0", "-fsanitize=address,undefined", "-fno-omit-frame-pointer", "-fno-sanitize-recover=undefined",
+        # uninitialised automatic storage is an ambient input too: one build fills it with a pattern, the other with zeros
+        init = "-ftrivial-auto-var-init=pattern" if std == "17" else "-ftrivial-auto-var-init=zero"
+        cmd = ["g++", "-std=c++" + std, "-g", "-O0", init, "-fsanitize=address,undefined", "-fno-omit-frame-pointer", "-fno-sanitize-recover=undefined",
                "-I", gen, src, lib, "-lpthread", "-ldl", "-lm", "-o", exe]
         r = subprocess.run(cmd, stdout=subprocess.PIPE, stderr=subprocess.STDOUT, text=True)
         if r.returncode != 0:
